@@ -348,6 +348,10 @@ def run_case(case, ctx):
   if case.get("listing") and not (colon and route != "api"):
     res = runner(["@IN", "--list-items"] + cli_args(ops), text)
     ctx.count("listings_checked")
+    if res["rc"] != 0 and got[0] != "ok":
+      # the edited file itself is a configuration error (already judged above): nothing to list
+      ctx.count("listing_skipped_edit_is_config_error")
+      return
     if res["rc"] != 0:
       ctx.violation("listing_failed", "--list-items rc=%s %s" % (res["rc"], res["err"][-200:]), what="listing_failed")
       return
